@@ -92,3 +92,33 @@ A 218; A 202; A 227; A 68; A 187; A 49; A 18; A 69; A 253; A 111; A 132; A 223; 
 14; A 143; A 83; A 167; A 53; A 108; A 136; A 145; A 63; A 32; A 246]]; L [A 20; L [A 0]; L [A 0]]; L [A 20; L [A 0]; 
 L [A 0]]; L [A 32; A 3; A 0; A 1; A 5; L []]; L [A 20; L [A 0]; L [A 0]]; L [A 20; L [A 0]; L [A 0]]; L [A 32; A 4; A 
 0; A 1; A 5; L []]; L [A 20; L [A 0]; L [A 0]]; L [A 20; L [A 0]; L [A 0]]; L [A 32; A 5; A 0; A 1; A 5; L []]]].
+
+(** [exg] with ONE op result altered by hand (the result of the refused upload, entry (30 9 ...), from
+    UNAVAILABLE to OK): NOT an observation of the code; the replay ignores op results and still accepts it. *)
+Definition exb_obs : sx := L [L [L [A 0; A 0; L [A 1; L []]; L []; L [A 1; L []]; A 0]; L [A 5; A 0; A 0]; L [A 5; A 
+1; A 0]; L [A 20; L [A 0]; L [A 0]]; L [A 19; A 0]; L [A 1; A 0; A 0]; L [A 1; A 0; A 64]; L [A 1; A 0; A 128]; L [A 
+1; A 0; A 192]; L [A 3; A 0; A 20]; L [A 30; A 0; L [A 1]]; L [A 20; L [A 0]; L [A 0]]; L [A 19; A 1]; L [A 4; A 0; A 
+0; A 0; A 1; A 3; A 1000]; L [A 30; A 1; L [A 0; A 0; A 1; A 0]]; L [A 14; A 1; A 10; A 0]; L [A 20; L [A 0]; L [A 2; 
+A 10; A 0]]; L [A 19; A 2]; L [A 30; A 2; L [A 5]]; L [A 20; L [A 0]; L [A 2; A 10; A 0]]; L [A 16; A 10]; L [A 20; L 
+[A 0]; L [A 2; A 10; A 0]]; L [A 15; A 1; A 10]; L [A 8; A 0]; L [A 10; A 1]; L [A 20; L [A 0]; L [A 3; A 1]]; L [A 
+11; A 1]; L [A 9]; L [A 6; A 1; A 1; L [L [A 0; A 20; L []]; L [A 64; A 0; L []]; L [A 128; A 0; L []]; L [A 192; A 
+0; L [A 1000]]]]; L [A 12; A 1; A 1; A 1; L [L [A 0; A 20; L []]; L [A 64; A 0; L []]; L [A 128; A 0; L []]; L [A 
+192; A 0; L [A 1000]]]]; L [A 20; L [A 0]; L [A 1; A 1]]; L [A 13; A 1; A 1]; L [A 7; A 1]; L [A 5; A 1; A 0]; L [A 
+20; L [A 0]; L [A 0]]; L [A 19; A 3]; L [A 30; A 3; L [A 1]]; L [A 20; L [A 0]; L [A 0]]; L [A 19; A 4]; L [A 30; A 
+4; L [A 5]]; L [A 17]; L [A 8; A 0]; L [A 10; A 2]; L [A 20; L [A 0]; L [A 3; A 2]]; L [A 19; A 5]; L [A 30; A 5; L 
+[A 5]]; L [A 11; A 1]; L [A 9]; L [A 8; A 1]; L [A 10; A 3]; L [A 20; L [A 0]; L [A 3; A 3]]; L [A 19; A 6]; L [A 30; 
+A 6; L [A 5]]; L [A 11; A 1]; L [A 9]; L [A 6; A 1; A 1; L [L [A 0; A 20; L []]; L [A 64; A 0; L []]; L [A 128; A 0; 
+L []]; L [A 192; A 0; L [A 1000]]]]; L [A 12; A 1; A 2; A 1; L [L [A 0; A 20; L []]; L [A 64; A 0; L []]; L [A 128; A 
+0; L []]; L [A 192; A 0; L [A 1000]]]]; L [A 20; L [A 0]; L [A 1; A 2]]; L [A 19; A 7]; L [A 30; A 7; L [A 0; A 0; A 
+1; A 0]]; L [A 20; L [A 0]; L [A 1; A 2]]; L [A 19; A 8]; L [A 30; A 8; L [A 5]]; L [A 13; A 1; A 1]; L [A 7; A 1]; L 
+[A 18]; L [A 20; L [A 0]; L [A 4]]; L [A 19; A 9]; L [A 3; A 0; A 24]; L [A 4; A 1; A 1; A 14]; L [A 30; A 9; L [A 0; 
+A 0; A 1; A 1]]; L [A 20; L [A 0]; L [A 4]]; L [A 19; A 10]; L [A 30; A 10; L [A 3]]; L [A 20; L [A 0]; L [A 4]]]; L 
+[L [A 0; A 4; L [A 1; L [L [A 0; A 20; L []]; L [A 64; A 0; L []]; L [A 128; A 0; L []]; L [A 192; A 0; L [A 
+1000]]]]; L [A 1; A 1; A 1; A 1]; L [A 1; L [L [A 0; A 20; L []]; L [A 64; A 0; L []]; L [A 128; A 0; L []]; L [A 
+192; A 0; L [A 1000]]]]; A 0]; L [A 5; A 1; A 0]; L [A 5; A 0; A 0]; L [A 20; L [A 0]; L [A 0]]; L [A 19; A (-1)]; L 
+[A 20; L [A 0]; L [A 0]]; L [A 20; L [A 0]; L [A 0]]; L [A 32; A 0; A 0; A 0; A 0; L [A 0; A 20; A 121; A 66; A 189; 
+A 242; A 33; A 6; A 240; A 132; A 119; A 98; A 240; A 243; A 203; A 77; A 118; A 77; A 199; A 7]]; L [A 20; L [A 0]; 
+L [A 0]]; L [A 20; L [A 0]; L [A 0]]; L [A 32; A 1; A 0; A 1; A 5; L []]; L [A 20; L [A 0]; L [A 0]]; L [A 20; L [A 
+0]; L [A 0]]; L [A 32; A 2; A 0; A 1; A 5; L []]; L [A 20; L [A 0]; L [A 0]]; L [A 20; L [A 0]; L [A 0]]; L [A 32; A 
+3; A 0; A 1; A 5; L []]; L [A 20; L [A 0]; L [A 0]]; L [A 20; L [A 0]; L [A 0]]; L [A 32; A 4; A 0; A 1; A 5; L []]; 
+L [A 20; L [A 0]; L [A 0]]; L [A 20; L [A 0]; L [A 0]]; L [A 32; A 5; A 0; A 1; A 5; L []]]].
